@@ -236,11 +236,11 @@ fn determine_target(
 
     let mut host_header: Option<String> = None;
     for header in headers {
-        if let Some(rest) = header.strip_prefix("Host:") {
-            host_header = Some(rest.trim().to_string());
-            break;
-        } else if let Some(rest) = header.strip_prefix("host:") {
-            host_header = Some(rest.trim().to_string());
+        // Header field names are case-insensitive ("HOST:", "hOsT:" ...)
+        if let Some(name) = header.get(..5)
+            && name.eq_ignore_ascii_case("host:")
+        {
+            host_header = Some(header[5..].trim().to_string());
             break;
         }
     }
